@@ -37,8 +37,7 @@ pub fn child_main(mode: &str) -> i32 {
             0
         }
         "samples" => {
-            let out = String::new(); // C17 child mode is wired in below
-            let _ = &input;
+            let out = super::c17::child_samples(&input);
             engine::say(&out);
             0
         }
